@@ -114,6 +114,8 @@ def run_call(pool, call, res):
     if call.get('exit'):
         params['worker_exit'] = getattr(userfuncs, 'exit_' + bits) if dyn else userfuncs.exit_
     func = getattr(userfuncs, call.get('func', 'task') + ('_' + bits if dyn else ''))
+    if kind == 'apply_batch' and dyn:
+        func = getattr(userfuncs, 'task_' + bits)
     out = {'kind': kind}
     t0 = time.time()
     try:
@@ -160,7 +162,7 @@ def run_call(pool, call, res):
             asyncs = []
             for j in jobs:
                 def cb(v, _j=j):
-                    log.append(['cb', _j['id'], userfuncs.canon(v)])
+                    log.append(['cb', _j['id'], v if (isinstance(v, list) and v and v[0] in ('R', 'Q')) else userfuncs.canon(v)])
 
                 def ecb(e, _j=j):
                     log.append(['ecb', _j['id'], type(e).__name__, repr(e.args)])
@@ -174,7 +176,8 @@ def run_call(pool, call, res):
             vals = []
             for j, a in zip(jobs, asyncs):
                 try:
-                    vals.append(['ok', userfuncs.canon(a.get(timeout=call.get('get_timeout', 60)))])
+                    v = a.get(timeout=call.get('get_timeout', 60))
+                    vals.append(['ok', v if (isinstance(v, list) and v and v[0] in ('R', 'Q')) else userfuncs.canon(v)])
                 except BaseException as e:       # noqa
                     vals.append(['exc', type(e).__name__, repr(e.args)])
             if not call.get('join_first'):
